@@ -167,14 +167,21 @@ def evaluate(spec, op, model=None):
     probs = []
     fixed = fixed_values(spec, op)
     full = all(fixed.get(n) is not None for n in part)
-    exp = spec_composite([M.serialize_key(model, n, fixed[n]) for n in part]) if full else None
+    comps = [M.serialize_key(model, n, fixed[n]) for n in part] if full else []
+    too_big = len(comps) > 1 and any(len(c) >= 65536 for c in comps)
+    exp = spec_composite(comps) if full and not too_big else None
     shape = 'inherit' if spec.get('base') else 'flat'
-    if res['err']:
+    if too_big:
+        if not res['err']:
+            probs.append(('routing.oversized-component-accepted', 'a %d-byte component was packed into a routing key' % max(len(c) for c in comps), 'C38_routing'))
+    elif res['err']:
         cls = res['err'].split(':')[0]
         probs.append(('routing.raised.%s.%s' % (cls, 'override+new-partition-key' if shape == 'inherit' and cls == 'IndexError' else shape),
                       '%s on a valid %s raised %s; partition key index map %r' % (op['kind'], shape, res['err'], dict(model._partition_key_index)), 'C38_routing'))
     else:
         for st in res['stmts']:
+            if too_big:
+                break
             if full and st['rk'] != exp:
                 probs.append(('routing.wrong-key.%s' % shape, '%s: routing key %r but Cassandra hashes %r (partition key %r)  [%s]' %
                               (op['kind'], st['rk'], exp, part, st['q'][:120]), 'C38_routing'))
@@ -198,7 +205,8 @@ def ident(s):
 
 
 def zlist(l):
-    return '[' + '; '.join('%d' % x for x in l) + ']'
+    from vf import bind_impl
+    return bind_impl.zlist(l)          # run-length literal for long constant runs
 
 
 def g_case(spec, op, res, model):
@@ -260,6 +268,11 @@ def run(ctx):
     for _ in range(nmodels):
         spec = gen_spec(rng)
         items.append((spec, gen_ops(rng, spec)))
+    # composite key components around the signed / unsigned 16-bit limits (run-length Gallina literals); 65536 must be refused
+    for ln in (32767, 32768, 40000, 65535, 65536):
+        spec = {'base': None, 'own': [{'name': 'a', 'type': 'Blob', 'pk': True, 'prim': False, 'dbf': None},
+                                      {'name': 'b', 'type': 'Integer', 'pk': True, 'prim': False, 'dbf': 'x_b'}]}
+        items.append((spec, [{'kind': 'select', 'where': [['a', 'eq', ['bytes', ('%02x' % rng.randrange(256)) * ln]], ['b', 'eq', ['int', 5]]]}]))
     ctx.rule = ('generated cqlengine models: flat (1-3 partition keys, clustering, data), abstract base + subclass that overrides inherited key '
                 'columns (flag repeated, possibly another type/db_field) and/or adds partition/clustering/data columns in random declaration '
                 'order, single primary_key (implicit partition key); 30% db_field renames; 18 key-capable column types x up to 3 operations '
